@@ -49,9 +49,41 @@ impl Property for OptProp {
         }
     }
     fn run(&self, case: &SolveCase) -> Verdict {
-        if case.witness.is_some() {
-            // the long-chain models of the shared generator are judged by C01/C02 only
-            return Ok(Outcome::default());
+        if let Some(w) = &case.witness {
+            // long-chain models (too large to enumerate): the reported optimum must be at least as good as the
+            // planted solution, and it must be a solution
+            let m = &case.model;
+            let mut out = Outcome::default();
+            out.classes.push("large_planted".into());
+            let mut b = Built::from_model(m, &case.cfg, None);
+            if b.infeasible_at_post() {
+                return Err(Failure::new("wrong:post-error-but-satisfiable", "posting a constraint of the long-chain model failed although the planted assignment satisfies the model"));
+            }
+            let mut br = b.brancher(&case.cfg.brancher);
+            let mut t = CountingTermination::budget(BUDGET);
+            let lsu = m.struct_hash() % 2 == 0;
+            let (r, _) = optimise(&mut b, &mut br, &mut t, lsu, case.maximise, &case.objective);
+            let val = |a: &[i32]| sem::tv(&case.objective, a);
+            match r {
+                OptRes::Optimal(a) => {
+                    if let Some(why) = sem::first_violation(m, &a) {
+                        return Err(Failure::new("wrong:optimal-not-a-solution", format!("Optimal solution of the long-chain model: {}", why)));
+                    }
+                    let worse = if case.maximise { val(&a) < val(w) } else { val(&a) > val(w) };
+                    if worse {
+                        return Err(Failure::new(
+                            "wrong:not-optimal",
+                            format!("Optimal with objective {} on the long-chain model but the planted solution has objective {} (maximise: {}, lsu: {lsu})", val(&a), val(w), case.maximise),
+                        ));
+                    }
+                }
+                OptRes::Unsat => return Err(Failure::new("wrong:unsat-but-sat", "Unsatisfiable but the planted assignment satisfies the long-chain model")),
+                _ => out.inconclusive = true,
+            }
+            if br.stats.conflicts > 0 {
+                out.classes.push("large_planted:had_conflict".into());
+            }
+            return Ok(out);
         }
         let m = &case.model;
         let mut out = Outcome::default();
